@@ -556,9 +556,10 @@ def P10_aspects(*aspects):
     return rule
 
 
-def P10(ctx, facts, aspects=("sites", "released", "pure-waiter", "spawn")):
+def P10(ctx, facts, aspects=("sites", "released", "pure-waiter", "spawn", "keeps")):
     """aspects: sites (who sets / clears the marker), released (the owner's drop continues or cancels),
-    pure-waiter (a checkout that only waited never cancels), spawn (the delayed checkout is what is spawned)."""
+    pure-waiter (a checkout that only waited never cancels), spawn (the delayed checkout is what is spawned),
+    keeps (a continued attempt keeps its marker)."""
     A = set(aspects)
     # who sets the marker
     sites = []
@@ -624,6 +625,14 @@ def P10(ctx, facts, aspects=("sites", "released", "pure-waiter", "spawn")):
         tr = sig(d.roots(c.args[1]))
         ctx.check(tr and all(r.kind == "arg" and r.desc.endswith("token") for r in tr), "Checkout::drop|cancel-own-token",
                   "the marker cancelled is the checkout's own token's", "cancel token roots %s" % sorted(map(repr, tr)), c.where())
+    # continue XOR cancel: an attempt that carries on in the background keeps its marker (cancel_connection would release the
+    # checkouts waiting on it and let later requests dial again although the connection is about to arrive)
+    for sp in spawn if "keeps" in A else []:
+        for c in cancel:
+            pth = d.path(sp.bb, [c.bb]) if c.bb != sp.bb else [sp.bb]
+            ctx.check(pth is None, "Checkout::drop|continued-attempt-keeps-marker", "after the attempt was handed to a background task the marker is not cancelled",
+                      "cancel_connection is reachable after the attempt was handed to a background task: the marker is released although the attempt continues",
+                      c.where(), d.path_desc(pth))
     for c in spawn if "spawn" in A else []:
         ok, w = d.guarded(c.bb, L_variant(d, "Some", of_call="client::pool::checkout::Checkout::as_delayed"))
         ctx.check(ok, "Checkout::drop|spawn-delayed", "the background task is spawned exactly for the checkout returned by as_delayed()",
